@@ -187,12 +187,25 @@ run_deflate(struct scn *s)
         }
         if (s->table == 1)
                 isal_deflate_set_hufftables(z, NULL, IGZIP_HUFFTABLE_STATIC);
-        else if (s->table == 2 || s->table == 3) {
+        else if (s->table >= 2 && s->table <= 5) {
                 struct isal_huff_histogram *h = calloc(1, sizeof(*h));
                 hr = vh_region_get(sizeof(*ht));
                 ht = (struct isal_hufftables *) vh_place(&hr, sizeof(*ht), VH_END, 0);
-                isal_update_histogram(s->in, s->inlen, h);
-                if (s->table == 2)
+                if (s->table <= 3)
+                        isal_update_histogram(s->in, s->inlen, h);
+                else { /* explicit histogram carried in the dict field: 316 counts x 6 bytes little endian */
+                        int q, b;
+                        for (q = 0; q < ISAL_DEF_LIT_LEN_SYMBOLS + ISAL_DEF_DIST_SYMBOLS && q * 6 + 5 < s->dictlen; q++) {
+                                uint64_t v = 0;
+                                for (b = 5; b >= 0; b--)
+                                        v = (v << 8) | s->dict[q * 6 + b];
+                                if (q < ISAL_DEF_LIT_LEN_SYMBOLS)
+                                        h->lit_len_histogram[q] = v;
+                                else
+                                        h->dist_histogram[q - ISAL_DEF_LIT_LEN_SYMBOLS] = v;
+                        }
+                }
+                if (s->table == 2 || s->table == 4)
                         isal_create_hufftables(ht, h);
                 else
                         isal_create_hufftables_subset(ht, h);
@@ -269,11 +282,13 @@ run_deflate(struct scn *s)
                         fprintf(out,
                                 "{\"e\":\"Call\",\"scn\":%d,\"seq\":%d,\"flush\":%d,\"eos\":%d,\"ai\":%u,\"ao\":%d,\"ret\":%d,\"c\":%u,\"p\":%u,"
                                 "\"ti\":%u,\"to\":%u,\"dti\":%u,\"dto\":%u,\"dni\":%ld,\"dno\":%ld,\"st\":\"%s\",\"st0\":\"%s\",\"hist\":%d,\"bv\":%u,\"bp\":%u,"
-                                "\"touched_outside\":%d",
+                                "\"touched_outside\":%d,\"sh\":%d",
                                 s->id, i, c.flush, eos_set, ai0, c.ao, ret, cns, prd, z->total_in, z->total_out, z->total_in - ti0,
                                 z->total_out - to0, (long) (z->next_in - ni0), (long) (z->next_out - no0),
                                 zstate_name(z->internal_state.state), zstate_name(st0), z->internal_state.has_hist,
-                                z->internal_state.b_bytes_valid, z->internal_state.b_bytes_processed, canary != 0x7fffffff);
+                                z->internal_state.b_bytes_valid, z->internal_state.b_bytes_processed, canary != 0x7fffffff,
+                                /* try to (re)install the same table: must be refused while a block is open */
+                                ht && ret == COMP_OK && s->api == API_DEFLATE ? isal_deflate_set_hufftables(z, ht, IGZIP_HUFFTABLE_CUSTOM) : 99);
                         log_bytes("out", o, prd <= (uint32_t) c.ao ? prd : 0);
                         fprintf(out, "}\n");
                 }
